@@ -7,7 +7,9 @@ package spec
 
 import (
 	"encoding/json"
+	"fmt"
 	"os"
+	"path/filepath"
 	"strings"
 	"testing"
 
@@ -187,4 +189,22 @@ func FuzzVF_C18_spec_ids(f *testing.F) {
 		}
 		vfFuzzEval(t, "C18/spec", c18IDCase{Text: data}, c18IDCheck)
 	})
+}
+
+// TestVF_C18_DumpCorpus writes the hostile constants as Go fuzz corpus files when VF_C18_DUMP names a directory.
+func TestVF_C18_DumpCorpus(t *testing.T) {
+	dir := os.Getenv("VF_C18_DUMP")
+	if dir == "" {
+		t.Skip("VF_C18_DUMP not set")
+	}
+	d := filepath.Join(dir, "FuzzVF_C18_spec_ids")
+	if err := os.MkdirAll(d, 0o755); err != nil {
+		t.Fatal(err)
+	}
+	for i, s := range c18IDHostile {
+		body := fmt.Sprintf("go test fuzz v1\n[]byte(%q)\n", s)
+		if err := os.WriteFile(filepath.Join(d, fmt.Sprintf("seed-%03d", i)), []byte(body), 0o644); err != nil {
+			t.Fatal(err)
+		}
+	}
 }
